@@ -459,6 +459,10 @@ func (g *genSt) life() {
 			g.do("save ok")
 		}
 		g.do("close")
+		if r.Chance(30) {
+			g.do("scrape") // scraping while the stream is closed neither blocks nor crashes
+			g.tags["scrape.closed"] = true
+		}
 		// late acknowledgements against the closed stream object
 		if r.Chance(40) && len(g.ctxIdx) > 0 {
 			g.tags["ack.after-close"] = true
@@ -471,6 +475,9 @@ func (g *genSt) life() {
 		h := g.high[vb]
 		if v := g.vbs[vb]; v != nil && v.next > 0 && v.next-1 > h {
 			h = v.next - 1
+		}
+		if d, ok := g.e.meta.store[uint16(vb)]; ok && d.Checkpoint.SeqNo > h {
+			h = d.Checkpoint.SeqNo // never below what is already durable
 		}
 		if r.Chance(25) && h < 1<<62 {
 			h += uint64(r.Intn(100))
@@ -485,10 +492,22 @@ func (g *genSt) life() {
 
 func (g *genSt) query() {
 	r := g.c.R
-	if r.Bool() {
+	switch r.Intn(3) {
+	case 0:
 		g.do("offsets")
-	} else {
+	case 1:
 		g.do(fmt.Sprintf("metrics %d", g.pickVb()))
+	default:
+		if r.Chance(30) {
+			// the server's high seqno moves (also below the tracked position: lag must clamp at 0)
+			vb := g.pickVb()
+			h := uint64(r.Intn(300))
+			g.do(fmt.Sprintf("high %d %d", vb, h))
+			g.high[vb] = h
+			g.tags["scrape.high-moved"] = true
+		}
+		g.do("scrape")
+		g.tags["scrape"] = true
 	}
 }
 
@@ -629,7 +648,7 @@ func replaySession(c *Ctx) {
 	n := 0
 	for sc.Scan() {
 		line := strings.SplitN(sc.Text(), "\t", 2)[0]
-		if strings.TrimSpace(line) == "" {
+		if strings.TrimSpace(line) == "" || strings.HasPrefix(line, "#") {
 			continue
 		}
 		if line == "reset" || e == nil {
@@ -660,7 +679,7 @@ func readOpLines(path string) []string {
 	var out []string
 	for sc.Scan() {
 		line := strings.SplitN(sc.Text(), "\t", 2)[0]
-		if strings.TrimSpace(line) != "" {
+		if strings.TrimSpace(line) != "" && !strings.HasPrefix(line, "#") {
 			out = append(out, line)
 		}
 	}
